@@ -10,7 +10,7 @@ use crate::runner::*;
 use crate::tape::Tape;
 use crate::with_spec;
 
-pub const RULE: &str = "inputs biased to where counter-examples live: generated documents with a random known/unknown choice per master, encoded by the reference encoder, then (a) unchanged, \
+pub const RULE: &str = "(stage structure_deep_nesting: the same oracle on documents nested 28-300 masters deep over a recursive template or generated specification, innermost masters of unknown size, a third mutated.) inputs biased to where counter-examples live: generated documents with a random known/unknown choice per master, encoded by the reference encoder, then (a) unchanged, \
 (b) 1-3 structure-aware mutations (size field rewritten, id replaced by a sibling-/ancestor-/root-level id, element moved/deleted/duplicated), (c) a suffix starting at the tag_start of a non-root element \
 (mid-document start, optionally mutated), (d) adversarial headers / random bytes, plus a dedicated template: unknown-size master → known-size child not yet exhausted → element of an outer level. \
 Strict configuration only. Oracle: StructureChecker replays the emitted (item, offset) prefix with its own stack: ids in spec, declared path matches the open chain (ref_match) once the first non-global element fixed the position, \
@@ -140,6 +140,18 @@ fn stage(i: &Input, c: &mut Case) -> Result<(), String> {
             c.label("template_first_non_global_element_inside_open_global_masters");
         }
     }
+    structure(t, m, c)
+}
+
+/// the same invariants on documents nested 28 .. 300 masters deep (`gen_deep`)
+fn stage_deep(i: &Input, c: &mut Case) -> Result<(), String> {
+    let mut t = Tape::new(i.tape());
+    let m = gen_deep(&mut t, false);
+    c.label("nested_28_to_300_deep");
+    structure(t, m, c)
+}
+
+fn structure(mut t: Tape, m: MixedInput, c: &mut Case) -> Result<(), String> {
     let capacity = if t.chance(1, 3) { Some(*t.pick(&[16usize, 24, 33])) } else { None };
     let (max_size, _) = safe_max_size(&m.bytes, MaxSize::Untouched);
     let cfg = ReadCfg { capacity, max_size, ..ReadCfg::default() };
@@ -167,10 +179,11 @@ fn stage(i: &Input, c: &mut Case) -> Result<(), String> {
     Ok(())
 }
 
-pub const STAGES: &[Stage] = &[Stage { name: "structure", f: stage }];
+pub const STAGES: &[Stage] = &[Stage { name: "structure", f: stage }, Stage { name: "structure_deep_nesting", f: stage_deep }];
 
 pub fn run(rc: &mut RunCtx) {
     rc.run_pt(STAGES[0], rc.pick(960_000, 5_000_000), (96, 500));
+    rc.run_pt(STAGES[1], rc.pick(12_000, 100_000), (64, 200));
     for l in ["implied_ancestors", "mixed_known_unknown", "input_mutated", "input_mid_document", "ended_cleanly", "ended_in_error", "template_outer_element_inside_known_child_of_unknown", "template_first_non_global_element_inside_open_global_masters"] {
         rc.require_label("structure", l, 10_000);
     }
